@@ -66,6 +66,66 @@ def job_3d(job):
     return out
 
 
+def job_adapter(job):
+    """the command-line adapter (external tool output imported onto a structure): CSV, JSON, BPSEQ and dot-bracket files"""
+    import rnapolis.adapter as adapter
+    out = None
+    for rep in range(2):
+        o = {}
+        with tempfile.TemporaryDirectory() as d:
+            argv = ["adapter", job["path"], "--external", job["external"], "--tool", job["tool"], "--csv", os.path.join(d, "a.csv"),
+                    "--json", os.path.join(d, "a.json"), "--bpseq", os.path.join(d, "a.bpseq")] + (["-e"] if job.get("extended") else [])
+            old = sys.argv
+            sys.argv = argv
+            import contextlib
+            buf = io.StringIO()
+            try:
+                with contextlib.redirect_stdout(buf):
+                    adapter.main()
+            finally:
+                sys.argv = old
+            o["stdout"] = digest(buf.getvalue())
+            for fn in ("a.csv", "a.json", "a.bpseq"):
+                path = os.path.join(d, fn)
+                o[fn] = digest(open(path, "rb").read()) if os.path.exists(path) else "absent"
+        o["interactions"] = digest(repr(adapter.parse_fr3d_output(job["external"]))) if job["tool"] == "fr3d" else ""
+        if rep == 0:
+            out = o
+        elif o != out:
+            out["in_process_repeat_differs"] = "yes"
+    return out
+
+
+def job_tool(job):
+    """any command-line tool of the package: stdout and the files it writes"""
+    import contextlib
+    import importlib
+    mod = importlib.import_module(job["module"])
+    out = None
+    for rep in range(2):
+        o = {}
+        with tempfile.TemporaryDirectory() as d:
+            argv = [job["module"]] + [a.replace("{d}", d) for a in job["argv"]]
+            old = sys.argv
+            sys.argv = argv
+            buf = io.StringIO()
+            try:
+                with contextlib.redirect_stdout(buf):
+                    mod.main()
+            except SystemExit:
+                pass
+            finally:
+                sys.argv = old
+            o["stdout"] = digest(buf.getvalue())
+            for fn in sorted(os.listdir(d)):
+                o["file:" + fn] = digest(open(os.path.join(d, fn), "rb").read())
+        if rep == 0:
+            out = o
+        elif o != out:
+            out["in_process_repeat_differs"] = "yes"
+    return out
+
+
 def job_map(job):
     from rnapolis.common import BasePair, LeontisWesthof, Residue, Saenger
     from rnapolis.parser import read_3d_structure
@@ -91,7 +151,7 @@ def main():
     jobs = json.load(open(sys.argv[1]))
     for job in jobs:
         try:
-            r = job_2d(job) if job["type"] == "2d" else (job_map(job) if job["type"] == "map" else job_3d(job))
+            r = job_2d(job) if job["type"] == "2d" else (job_map(job) if job["type"] == "map" else (job_adapter(job) if job["type"] == "adapter" else (job_tool(job) if job["type"] == "tool" else job_3d(job))))
         except Exception as e:  # noqa: BLE001
             r = {"error": f"{type(e).__name__}: {e}"}
         print(json.dumps({"id": job["id"], "out": r}), flush=True)
